@@ -110,7 +110,10 @@ def check_tree(ctx, sut, element, extra_elements, definitions, model_schema, val
         meta_ok = False
         ctx.count("metaschema.model_error." + type(exc).__name__)
     if not meta_ok:
-        ctx.witness("not_metaschema_valid", case, f"document is not a valid Draft-6 schema: {text[:400]}")
+        # F42: `enum=[]` (nothing is accepted) is written as "enum": [], which Draft 6 does not allow
+        ctx.witness("not_metaschema_valid", case, f"document is not a valid Draft-6 schema: {text[:400]}",
+                    finding="F42" if '"enum": []' in text and refmodel.metaschema_valid(
+                        json.loads(text.replace('"enum": []', '"enum": [null]'))) else None)
         return
     ctx.count("metaschema.valid")
     try:
@@ -189,6 +192,11 @@ def run_shard(ctx):
             spec = gen.klass(gen.max_depth) if idx % 2 else gen.spec()
             if spec["t"] == "ref":
                 continue
+            if idx % 40 == 7 and isinstance(spec.get("kw"), dict):
+                # constructible through the DSL, not writable in a schema document: the empty enum
+                spec["kw"].pop("const", None)
+                spec["kw"]["enum"] = []
+                ctx.count("shape.empty_enum")
             try:
                 element = gen_dsl.build(spec)
             except Exception as exc:  # pylint: disable=broad-except
